@@ -1,3 +1,328 @@
+"""C04 — essential object invariants.  Config + a correspondence stage that classifies every
+disagreement with S by re-evaluating it against the transcription of goja (I) and against I with one
+repair switched on at a time (variants 1..7 of coq/C04/Run.v)."""
+import json
+import os
+import re
+import sys
+import time
+
+sys.path.insert(0, os.path.join(os.path.dirname(os.path.dirname(os.path.abspath(__file__))), "lib"))
+import vcheck  # noqa: E402
+
+VARIANT_FINDING = {2: "F1", 3: "C04-N1", 4: "C04-N2", 5: "C04-N3", 6: "F2"}
+
+
+# ------------------------------------------------------------------------------------------------
+# narrow recognisers of the recorded findings: (shrunk case, harness record, model's expected text)
+
+def _ops(case):
+    return case.get("ops", []) if isinstance(case, dict) else []
+
+
+def _last_step(rec):
+    steps = re.findall(r"S[tn] \((X\w+)[^;]*?\) (\(X\w+[^)]*\)|XAny|XD0)", rec.get("coq", ""))
+    return steps[-1] if steps else ("", "")
+
+
+def _first_bad(exp):
+    m = re.search(r"\(Some (\d+)", exp or "")
+    return int(m.group(1)) if m else None
+
+
+def _diverging_op(case, exp):
+    n = _first_bad(exp)
+    ops = _ops(case)
+    if n is None or n >= len(ops):
+        return None
+    return ops[n]
+
+
+def _is_acc_desc(d):
+    return bool(d) and (d.get("g", 0) != 0 or d.get("s", 0) != 0)
+
+
+def pred_f1(case, rec, exp):
+    """define {writable: w} (no value/get/set) accepted on an existing accessor that S refuses to change"""
+    op = _diverging_op(case, exp)
+    if not op or op.get("t") != "def":
+        return False
+    d = op.get("d") or {}
+    if "v" in d or d.get("w", 0) == 0 or _is_acc_desc(d):
+        return False
+    before = [o for o in _ops(case)[:_ops(case).index(op)] if o.get("o") == op.get("o") and o.get("k", 0) == op.get("k", 0)]
+    if not any(o.get("t") == "def" and _is_acc_desc(o.get("d")) for o in before):
+        return False
+    return "RBool false" in exp
+
+
+def pred_n2(case, rec, exp):
+    """define {get: undefined} / {set: undefined} accepted on a non-configurable data property"""
+    op = _diverging_op(case, exp)
+    if not op or op.get("t") != "def":
+        return False
+    d = op.get("d") or {}
+    if not _is_acc_desc(d) or d.get("g", 0) >= 2 or d.get("s", 0) >= 2:
+        return False
+    return "RBool false" in exp
+
+
+def _same_prop_history(case, upto):
+    ops = _ops(case)
+    return [o for o in ops[:upto] if o.get("t") == "def"]
+
+
+def pred_n1(case, rec, exp):
+    """a writable data property was turned into an accessor (writable is not reset): later observations of
+    that object differ"""
+    n = _first_bad(exp)
+    if n is None:
+        return False
+    ops = _ops(case)
+    for i, o in enumerate(ops[:n + 1]):
+        if o.get("t") == "def" and _is_acc_desc(o.get("d")):
+            # an earlier writable data property under the same key of the same object
+            for p in ops[:i]:
+                if p.get("o") == o.get("o") and p.get("k", 0) == o.get("k", 0) and (
+                        p.get("t") == "set" or (p.get("t") == "def" and (p.get("d") or {}).get("w", 0) == 2)):
+                    return True
+            # ... or created by a set on a descendant / receiver
+            for p in ops[:i]:
+                if p.get("t") == "set" and p.get("k", 0) == o.get("k", 0):
+                    return True
+    return False
+
+
+def pred_n3(case, rec, exp):
+    """accessor turned into a data property by {writable: w} only: the old getter/setter stay installed"""
+    n = _first_bad(exp)
+    if n is None:
+        return False
+    ops = _ops(case)
+    for i, o in enumerate(ops[:n + 1]):
+        d = o.get("d") or {}
+        if o.get("t") == "def" and "v" not in d and d.get("w", 0) != 0 and not _is_acc_desc(d):
+            for p in ops[:i]:
+                pd = p.get("d") or {}
+                if p.get("t") == "def" and p.get("o") == o.get("o") and p.get("k", 0) == o.get("k", 0) and (
+                        pd.get("g", 0) >= 2 or pd.get("s", 0) >= 2):
+                    return True
+    return False
+
+
+def pred_f2(case, rec, exp):
+    """Reflect.set with a symbol key and a receiver that is a strict ancestor of the target"""
+    n = _first_bad(exp)
+    if n is None:
+        return False
+    for o in _ops(case)[:n + 1]:
+        if o.get("t") == "set" and o.get("k", 0) >= 14 and o.get("s") == 2 and o.get("r", o.get("o")) != o.get("o"):
+            return True
+    return False
+
+
+def pred_n4(case, rec, exp):
+    """String object + integer-number key >= length: getOwnPropIdx reports no own property"""
+    n = _first_bad(exp)
+    if n is None or "string" not in case.get("kinds", []):
+        return False
+    for o in _ops(case)[:n + 1]:
+        if o.get("f", 0) == 1 and o.get("k", 0) < 6 and o.get("t") in ("own", "set"):
+            return True
+    return False
+
+
+# ------------------------------------------------------------------------------------------------
+# shrinking: cut at the first diverging step, then slice by key / object, then drop single ops
+
+def candidates(case):
+    ops = _ops(case)
+    n = len(ops)
+    out = []
+    if n <= 1:
+        return out
+    keyless = ("setp", "prev", "freeze", "seal")
+    keys = sorted({o.get("k", 0) for o in ops if o.get("t") not in keyless})
+    if len(keys) > 1:
+        for k in keys:
+            sub = [o for o in ops[:-1] if o.get("t") in keyless or o.get("k", 0) == k] + [ops[-1]]
+            if len(sub) < n:
+                out.append(dict(case, ops=sub))
+    if n >= 6:
+        out.append(dict(case, ops=ops[n // 2:]))
+    for i in range(n - 2, -1, -1):
+        out.append(dict(case, ops=ops[:i] + ops[i + 1:]))
+    # objects that are no longer mentioned cannot be dropped without renumbering; kinds are simplified instead
+    kinds = case.get("kinds", [])
+    for i, kd in enumerate(kinds):
+        if kd != "plain":
+            out.append(dict(case, kinds=kinds[:i] + ["plain"] + kinds[i + 1:]))
+    return out
+
+
+def shrink(ctx, binp, case, budget_s):
+    t0 = time.time()
+    rr = vcheck.harness_replay(ctx, binp, [case], tag="cut")
+    if rr:
+        bad, errs, exp = vcheck.coq_eval(ctx, rr, want_expected=True, tag="q")
+        n = _first_bad(exp)
+        if bad and n is not None and n + 1 < len(_ops(case)):
+            case = dict(case, ops=_ops(case)[:n + 1])
+    rounds = 0
+    while time.time() - t0 < budget_s and rounds < 60:
+        cands = candidates(case)
+        if not cands:
+            break
+        recs = vcheck.harness_replay(ctx, binp, cands, tag="shrink")
+        if len(recs) != len(cands):
+            break
+        bad, errs, _ = vcheck.coq_eval(ctx, recs, tag="k")
+        if errs or not bad:
+            break
+        case = cands[bad[0]]
+        rounds += 1
+    return case
+
+
+def with_variant(recs, v):
+    return [dict(r, coq=r["coq"].replace("mkCase 0 ", "mkCase %d " % v, 1)) for r in recs]
+
+
+def split_expected(exp, n):
+    """the printed list of n [expected] triples -> n strings"""
+    starts = [m.start() for m in re.finditer(r"\((?:Some \d+|None), (?:Some \d+|None),", exp or "")]
+    if len(starts) != n:
+        return None
+    return [exp[a:b] for a, b in zip(starts, starts[1:] + [len(exp)])]
+
+
+def known_entry(ctx, case, rec, exp):
+    preds = ctx.cfg.get("predicates", {})
+    for k in vcheck.load_known()["open"]:
+        if k["property"] == ctx.pid and k["predicate"] in preds and preds[k["predicate"]](case, rec, exp):
+            return k
+    return None
+
+
+def report(ctx, binp, recs, idxs, source, budget_s, minimal=False):
+    """classify the listed records the framework's way: a case cut at its first diverging step that the narrow
+    predicate of an open finding recognises => KNOWN-FINDING; anything else is shrunk and handed to the generic
+    reporter (=> VIOLATION unless the shrunk case is recognised)."""
+    if not idxs:
+        return
+    cases = [recs[i]["case"] for i in idxs]
+    rr = vcheck.harness_replay(ctx, binp, cases, tag="cut")
+    if len(rr) != len(cases):
+        vcheck.handle_mismatches(ctx, binp, [{"case": c} for c in cases], list(range(len(cases))), source)
+        return
+    bad, errs, exp = vcheck.coq_eval(ctx, rr, want_expected=True, tag="q")
+    exps = split_expected(exp, len(rr))
+    rest = []
+    for j, c in enumerate(cases):
+        if j not in bad:
+            ctx.notes.append({"nonreproducible": c})
+            continue
+        e = exps[j] if exps else ""
+        n = _first_bad(e)
+        if not minimal and n is not None and n + 1 < len(_ops(c)):
+            c = dict(c, ops=_ops(c)[:n + 1])
+        k = known_entry(ctx, c, rr[j], e) if exps else None
+        if k is not None and (ctx.tier == "quick" or minimal):
+            if k["id"] not in ctx.c04_printed:
+                ctx.c04_printed.add(k["id"])
+                line = "KNOWN-FINDING: property=%s %s [%s]" % (ctx.pid, k["what"], k["id"])
+                print(line, flush=True)
+                ctx.known_lines.append(line)
+            continue
+        rest.append({"case": c if minimal else shrink(ctx, binp, c, budget_s)})
+    if rest:
+        ctx.cfg["shrink"] = False
+        vcheck.handle_mismatches(ctx, binp, rest, list(range(len(rest))), source)
+
+
+def classify(ctx, binp, recs, source):
+    bad, errs, _ = vcheck.coq_eval(ctx, recs, tag="g")
+    for e in errs:
+        ctx.log("coq eval error (%s): %s" % (source, e[-800:]))
+        ctx.eval_errors = True
+    if not bad:
+        return 0
+    sub = [recs[i] for i in bad]
+    m = len(sub)
+    # one batch: against I as it is (variant 1) and against I with one repair on (variants 2..6)
+    variants = [1] + sorted(VARIANT_FINDING)
+    batch = []
+    for v in variants:
+        batch += with_variant(sub, v)
+    b, errs, _ = vcheck.coq_eval(ctx, batch, tag="a")
+    if errs:
+        ctx.eval_errors = True
+    mism = {v: set() for v in variants}
+    for x in b:
+        mism[variants[x // m]].add(x % m)
+    unexplained = set(mism[1])
+    attributed = {}
+    for j in range(m):
+        if j in unexplained:
+            continue
+        fs = [VARIANT_FINDING[v] for v in VARIANT_FINDING if j in mism[v]]
+        if not fs:
+            unexplained.add(j)      # I differs from S here but no recorded repair accounts for it
+        for f in fs:
+            attributed.setdefault(f, []).append(j)
+    stat = ctx.cov.setdefault("mismatch_classes", {})
+    for f, js in attributed.items():
+        stat[f] = stat.get(f, 0) + len(js)
+    stat["not_explained_by_I"] = stat.get("not_explained_by_I", 0) + len(unexplained)
+    budget = 20 if ctx.tier == "quick" else 60
+    minimal = source == "corpus"
+    # 1. what the transcription of goja does not explain: reported (a known finding outside I, or a violation)
+    un = sorted(unexplained, key=lambda j: len(sub[j]["case"].get("ops", [])))
+    lim = len(un) if minimal else (2 if ctx.tier == "quick" else 8)
+    report(ctx, binp, sub, un[:lim], source, budget, minimal)
+    # 2. one representative per recorded finding: the narrow predicate must recognise it
+    reps = []
+    for f, js in sorted(attributed.items()):
+        if f in ctx.c04_seen and ctx.tier == "quick":
+            continue        # already confirmed by predicate in this run; further cases are attributed by the model only
+        reps.append(min(js, key=lambda j: len(sub[j]["case"].get("ops", []))))
+        ctx.c04_seen.add(f)
+    report(ctx, binp, sub, sorted(set(reps)), source, budget, minimal)
+    return len(bad)
+
+
+def stage(ctx):
+    cfg = ctx.cfg
+    cfg["shard"] = 100 if ctx.tier == "quick" else 400
+    ctx.c04_seen = set()
+    ctx.c04_printed = set()
+    ctx.log("proof obligations checked: %s/%s" % (ctx.cov.get("discharged"), ctx.cov.get("obligations")))
+    binp = vcheck.build_harness(ctx)
+    if not binp or not getattr(ctx, "model_ok", True):
+        return
+    ctx.log("harness built")
+    all_recs = []
+    nbad = 0
+    corpus_dir = os.path.join(vcheck.ROOT, "corpus", ctx.pid)
+    cases = []
+    if os.path.isdir(corpus_dir):
+        for fn in sorted(os.listdir(corpus_dir)):
+            if fn.endswith(".jsonl"):
+                cases += [r["case"] for r in vcheck.read_jsonl(os.path.join(corpus_dir, fn))]
+    if cases:
+        recs = vcheck.harness_replay(ctx, binp, cases, tag="corpus")
+        ctx.cov["corpus_cases"] = len(recs)
+        nbad += classify(ctx, binp, recs, "corpus")
+        all_recs += recs
+        ctx.log("corpus replayed: %d cases" % len(recs))
+    recs = vcheck.harness_gen(ctx, binp, cfg["n"][ctx.tier], ctx.seed, extra=cfg.get("gen_extra"))
+    ctx.log("generated %d cases" % len(recs))
+    nb = classify(ctx, binp, recs, "generated")
+    ctx.log("evaluated in Coq: %d cases disagree with S (classes: %s)" % (nb, json.dumps(ctx.cov.get("mismatch_classes", {}))))
+    all_recs += recs
+    vcheck.summarize(ctx, all_recs, nbad + nb)
+
+
 CFG = {
     "id": "C04",
     "harness": "c04",
@@ -6,12 +331,65 @@ CFG = {
     "coq_dirs": ["C04"],
     "n": {"quick": 1500, "thorough": 100000},
     "shard": 100,
+    "max_report": 16,
     "level": "proof",
-    "rule": "tbd",
-    "theorem_names": [],
+    "stages": [stage],
+    "candidates": candidates,
+    "rule": ("histories of 1..40 operations (define with any partial descriptor, set/get with any receiver, has, "
+             "getOwnPropertyDescriptor, delete, ownKeys, preventExtensions, freeze, seal, isFrozen, isSealed, isExtensible, "
+             "get/setPrototypeOf) over 2..4 objects of 9 kinds (plain, null-prototype, function, class, unmapped arguments, "
+             "String, bound function, Go-created, arrow) with prototype chains, a per-case pool of 2..6 of 18 keys (array "
+             "indices incl. 2^32-2, numeric-looking strings '4294967295' '-0' '1e3' '01' '1.0', plain strings, symbols; index "
+             "keys also passed as numbers and as -0), each operation through one of four surfaces (syntax strict/sloppy, Object.*, "
+             "Reflect.*, Go API); observed: every result, every accessor call (function, this, argument), and full "
+             "descriptor dumps of all objects (Reflect.ownKeys order, isExtensible, prototype) at random points and at the end; "
+             "non-trivial = at least one operation was refused (false / TypeError); distinct = by hash of the case"),
+    "theorem_names": ["define_eq_spec_partial", "define_guard_exact", "define_eq_spec_repaired", "define_wf_partial",
+                      "essential_invariants", "nonextensible_invariants", "frozen_is_final", "ownkeys_order",
+                      "ownkeys_unique", "ownkeys_same_set", "idxcount_exact", "set_only_receiver"],
     "allowed_axioms": [],
-    "trusted_base": [],
-    "assumptions": [],
-    "predicates": {},
-    "manifest": {"text": "", "note": "", "technique": ""},
+    "trusted_base": [
+        "Coq 8.16.1 kernel + vm_compute (no native_compute); theorems closed under the global context (no axioms)",
+        "hand-written Gallina models coq/C04/Model.v: S = ECMA-262 10.1 ordinary object internal methods; I = transcription of "
+        "object.go/value.go/builtin_object.go (valueProperty records, _defineOwnProperty, setOwn*/setForeign*, _delete, "
+        "propNames+lastSortedPropLen+idxPropCount); sort.Search modelled as the linear search it equals on a sorted prefix",
+        "correspondence harness harness/cmd/c04 (surface conventions: TypeError of Object.*/Go API = false of Reflect.*; sloppy "
+        "assignment result not compared) and coq/C04/Run.v (encodings, comparison)",
+    ],
+    "assumptions": [
+        "getter/setter functions only log their call and return a constant; values are undefined, small integers and the objects of the case",
+        "own properties outside the 18-key pool (length, name, prototype, callee ...) are not modelled: isFrozen/isSealed are "
+        "compared on such objects only when the answer is true",
+        "descriptors mixing accessor and data fields (rejected by ToPropertyDescriptor before any internal method) are not generated",
+        "the implementation is tied to the model only on the generated histories (correspondence), not by proof",
+    ],
+    "predicates": {
+        "C04.define_writable_only_on_nonconfigurable_accessor": pred_f1,
+        "C04.reflect_set_symbol_receiver_is_ancestor": pred_f2,
+        "C04.data_to_accessor_keeps_writable": pred_n1,
+        "C04.define_undefined_accessor_on_nonconfigurable_data": pred_n2,
+        "C04.accessor_to_data_by_writable_keeps_getter": pred_n3,
+        "C04.string_object_numeric_key_beyond_length": pred_n4,
+    },
+    "manifest": {
+        "text": ("proof: (1) goja's _defineOwnProperty decision tree, transcribed, equals ValidateAndApplyPropertyDescriptor for every "
+                 "existing property and every partial descriptor outside two exactly characterised regions (F1, N2: refuted by "
+                 "witness), and everywhere once five one-line repairs are switched on; the valueProperty representation invariant "
+                 "is kept outside two further exact regions (N1, N3); (2) for every history of ordinary-object operations from any "
+                 "heap a non-configurable property is never deleted, keeps kind/enumerability/get/set and, if non-writable, its "
+                 "value; a non-extensible object keeps its prototype and gains no key; a frozen object never changes; (3) for "
+                 "every history of add/delete/enumerate goja's lazily sorted propNames equals OrdinaryOwnPropertyKeys, keys unique, "
+                 "idxPropCount exact; (4) OrdinarySet touches only the receiver (goja's setForeignSym refuted: F2). 20 theorems, no "
+                 "axioms. Tied to /repo on every run by 1500 (quick) / 100000 (thorough) generated histories over 9 object kinds, "
+                 "18 keys of 4 kinds and 4 API surfaces, compared step by step (results, accessor events, descriptor dumps) with "
+                 "the models evaluated by vm_compute; every disagreement is classified against the transcription of goja with "
+                 "single repairs toggled."),
+        "note": ("trusted: Coq kernel + vm_compute; the hand transcriptions coq/C04/Model.v of ECMA-262 10.1 (S) and of "
+                 "object.go/value.go/builtin_object.go (I); the Go harness and its surface conventions; exotic kinds (function, "
+                 "class, arguments, String, bound) are compared with the ordinary model on pool keys only; arrays, typed arrays, "
+                 "proxies, Go wrappers are covered by C07/C17/C11/C13, not here; the implementation is covered by correspondence "
+                 "on generated histories, not by proof"),
+        "technique": "Rocq proofs over the ordinary-object model (decision-table equality, invariants by induction over histories) + "
+                     "differential correspondence against /repo via vm_compute",
+    },
 }
